@@ -361,6 +361,33 @@ let eval (op : string) (a : string list) : string =
   (* wire-level family (real Transport on a wire-level fake): the journal holds only what the
      broker fully received, not what the client saw, so only the order / limits / log predicates *)
   | "wire", ws -> op_e2e ~wire:true ws
+  | "pdl", [rt; wt] ->
+    let o = { o_batchSize = Z0; o_batchBytes = Z0; o_maxAttempts = Z0; o_batchTimeoutMs = Z0;
+              o_backoffMinMs = Z0; o_backoffMaxMs = Z0; o_readTimeoutMs = z_of_hex rt; o_writeTimeoutMs = z_of_hex wt } in
+    hex_of_z (produce_deadline_ms o) ^ ":" ^ (match metadata_deadline_ms o with None -> "-" | Some d -> hex_of_z d)
+  | "pto", [rt; wt; delay; asy] ->
+    (* one message, BatchSize 1, MaxAttempts 3; the broker applies and answers after [delay] ms, then
+       (on a retry) at once: RUN the transition system with the reaction the model derives from the options *)
+    let o = { o_batchSize = z_of_int 1; o_batchBytes = Z0; o_maxAttempts = z_of_int 3; o_batchTimeoutMs = Z0;
+              o_backoffMinMs = Z0; o_backoffMaxMs = Z0; o_readTimeoutMs = z_of_hex rt; o_writeTimeoutMs = z_of_hex wt } in
+    let cfg = cfg_of_options o (asy = "1") (Some N0) (fun e -> int_of_n e = 1005) in
+    let s = ref init in
+    let ok = ref true in
+    let st l = match step cfg !s l with Some s' -> s := s' | None -> ok := false in
+    st (Call (n_of_int 1, [mk_msg 1 (n_of_int 40)], None)); st (Assign O);
+    if asy = "1" then st (Return O);
+    st (Get O); st (Attempt (O, timed_reaction o (z_of_hex delay)));
+    (match (List.nth !s.s_pws 0).pw_snd with
+     | Some { sd_ph = PBackoff } -> st (BackoffDone O); st (Attempt (O, AppliedAcked))
+     | _ -> ());
+    st (Finish O); st (Timer (O, O));
+    if asy <> "1" then st (Return O);
+    if not !ok then "MODEL-STUCK" else begin
+      let res =
+        if asy = "1" then (match !s.s_compl with [(_, None)] -> "nil" | [(_, Some e)] -> "we." ^ hex_of_n e | _ -> "?")
+        else (match (List.nth !s.s_calls 0).c_ph with CReturned r -> string_of_result r | _ -> "?") in
+      Printf.sprintf "%x:%x:%s" (List.length !s.s_journal) (List.length !s.s_log) res
+    end
   | "cfgd", [a; b; c; d; e; f; g; h] ->
     let o = { o_batchSize = z_of_hex a; o_batchBytes = z_of_hex b; o_maxAttempts = z_of_hex c;
               o_batchTimeoutMs = z_of_hex d; o_backoffMinMs = z_of_hex e; o_backoffMaxMs = z_of_hex f;
